@@ -388,6 +388,12 @@ class Scenario:
                 next_jd,
             )
             for event in relevant_events:
+                if event.scope_instance_id not in self.sensor_agents:
+                    # [NOTE]: e.g. the sensor was removed from the scenario while its time bias was still active
+                    self.logger.warning(
+                        f"Skipping {event.event_type} event of agent {event.scope_instance_id}: not a sensor of this scenario.",
+                    )
+                    continue
                 event.handleEvent(self.sensor_agents[event.scope_instance_id])
 
             self.logger.debug("Put agent updates...")
